@@ -1188,6 +1188,9 @@ func (tr *FnCtx) call(st *State, c *ssa.CallCommon, instr ssa.Instruction, mode 
 		if _, isParam := c.Value.(*ssa.Parameter); isParam {
 			tr.note("call of function-typed parameter " + c.Value.Name() + ": assumed not to modify modelled state (except variables whose address it is given)")
 			tr.callbackCalls = append(tr.callbackCalls, c.Value.Name())
+			// anchor "call param <name>#k": ghost updates/assertions at the call of a function-typed parameter
+			tr.callCount["prm:"+c.Value.Name()]++
+			tr.runAts(st, fmt.Sprintf("%s param %s#%d", modeWord(mode), c.Value.Name(), tr.callCount["prm:"+c.Value.Name()]), nil)
 			// a callback that is handed the address of a variable may write it (yaml's unmarshal(&name))
 			for _, a := range c.Args {
 				for _, cc := range tr.callbackPointeeComps(a) {
